@@ -67,7 +67,7 @@ example : C17.ex.findSettings [] (some (-4)) (some 10) true = (some 2, some 6) :
 /-- the normalised range always lies inside `0..len` (so `en ≤ n` need not be assumed below) -/
 theorem find_range_le (x : AStr) (start end_ : Option Int) :
     sliceIdx x.len start 0 ≤ x.len ∧ sliceIdx x.len end_ x.len ≤ x.len :=
-  ⟨sliceIdx_le _ _ _ (Nat.zero_le _), sliceIdx_le _ _ _ (Nat.le_refl _)⟩
+  ⟨sliceIdx_le_f17 _ _ _ (Nat.zero_le _), sliceIdx_le_f17 _ _ _ (Nat.le_refl _)⟩
 
 /-! ### 4. the search proper (`want ≠ []`, `st ≤ en`) -/
 
